@@ -254,7 +254,7 @@ class RowSets:
                 items = self.items(t[2][0])
                 return Or(*[And(c, self.member(x)) for c, x in items])
             if f[0] == "attr" and f[2] == "query":
-                raise AnalysisError("query() row filter not supported by the row-set engine")
+                raise AnalysisError("query() row filter with a string the def-use engine could not turn into a mask")
         if k == "attr" and t[2] in ("loc", "iloc"):
             return self.member(t[1])
         raise AnalysisError(f"frame expression not understood by the row-set engine: {ir.show(t, maxdepth=3)}")
